@@ -192,3 +192,230 @@ impl Transaction {
 		self.start_seq_num
 	}
 }
+
+// ===== H1: facade over crate-private formats (WAL, sorted tables, commit oracle) =====
+
+use std::ops::Bound;
+use std::path::Path;
+
+use crate::oracle::CommitOracle;
+use crate::sstable::table::{Table, TableWriter};
+use crate::wal::manager::Wal;
+use crate::wal::reader::Reader;
+use crate::{InternalKey, InternalKeyKind, LSMIterator};
+
+/// Thin wrapper over the WAL manager.
+pub struct VerifWal {
+	inner: Wal,
+}
+
+impl VerifWal {
+	pub fn open(dir: &Path, lz4: bool) -> Result<Self> {
+		let mut opts = crate::wal::Options::default();
+		if lz4 {
+			opts = opts.with_compression(crate::wal::CompressionType::Lz4);
+		}
+		Ok(Self {
+			inner: Wal::open(dir, opts)?,
+		})
+	}
+
+	pub fn append(&mut self, rec: &[u8]) -> Result<u64> {
+		Ok(self.inner.append(rec)?)
+	}
+
+	pub fn sync(&mut self) -> Result<()> {
+		Ok(self.inner.sync()?)
+	}
+
+	pub fn flush(&mut self) -> Result<()> {
+		Ok(self.inner.flush()?)
+	}
+
+	pub fn close(&mut self) -> Result<()> {
+		Ok(self.inner.close()?)
+	}
+
+	pub fn rotate(&mut self) -> Result<u64> {
+		Ok(self.inner.rotate()?)
+	}
+
+	pub fn active_log_number(&self) -> u64 {
+		self.inner.get_active_log_number()
+	}
+}
+
+/// How reading a segment ended.
+#[derive(Debug, Clone, PartialEq, Eq)]
+pub enum VerifWalEnd {
+	Eof,
+	Corruption(String),
+	Other(String),
+}
+
+/// Reads every record of one segment file with the crate's `Reader`.
+pub fn wal_read_segment(path: &Path) -> std::io::Result<(Vec<Vec<u8>>, VerifWalEnd)> {
+	let file = std::fs::File::open(path)?;
+	let mut reader = Reader::new(file);
+	let mut out = Vec::new();
+	loop {
+		match reader.read() {
+			Ok((rec, _off)) => out.push(rec.to_vec()),
+			Err(crate::wal::Error::IO(e)) if e.kind() == std::io::ErrorKind::UnexpectedEof => {
+				return Ok((out, VerifWalEnd::Eof));
+			}
+			Err(crate::wal::Error::Corruption(e)) => {
+				return Ok((out, VerifWalEnd::Corruption(e.to_string())));
+			}
+			Err(e) => return Ok((out, VerifWalEnd::Other(e.to_string()))),
+		}
+	}
+}
+
+pub fn wal_repair_segment(wal_dir: &Path, segment_id: u64) -> Result<()> {
+	crate::wal::recovery::repair_corrupted_wal_segment(wal_dir, segment_id as usize)
+}
+
+/// One versioned entry of a sorted table.
+#[derive(Debug, Clone, PartialEq, Eq)]
+pub struct VerifEntry {
+	pub user_key: Vec<u8>,
+	pub seq: u64,
+	pub kind: u8,
+	pub ts: u64,
+	pub value: Vec<u8>,
+}
+
+pub fn internal_key_encode(user_key: &[u8], seq: u64, kind: u8, ts: u64) -> Vec<u8> {
+	InternalKey::new(user_key.to_vec(), seq, InternalKeyKind::from(kind), ts).encode()
+}
+
+/// Writes `entries` (already in table order) into a table file.
+pub fn sst_write(path: &Path, id: u64, opts: Arc<Options>, level: u8, entries: &[VerifEntry]) -> Result<usize> {
+	let file = std::fs::File::create(path)?;
+	let mut w = TableWriter::new(file, id, opts, level);
+	for e in entries {
+		w.add(InternalKey::new(e.user_key.clone(), e.seq, InternalKeyKind::from(e.kind), e.ts), &e.value)?;
+	}
+	w.finish()
+}
+
+pub struct VerifTable {
+	t: Arc<Table>,
+}
+
+fn to_range(lo: Bound<&[u8]>, hi: Bound<&[u8]>) -> crate::InternalKeyRange {
+	crate::user_range_to_internal_range(lo, hi)
+}
+
+impl VerifTable {
+	pub fn open(path: &Path, id: u64, opts: Arc<Options>) -> Result<Self> {
+		let file = std::fs::File::open(path)?;
+		let file: Arc<dyn crate::vfs::File> = Arc::new(file);
+		let size = file.size()?;
+		Ok(Self {
+			t: Arc::new(Table::new(id, opts, file, size)?),
+		})
+	}
+
+	/// Point lookup exactly as `Snapshot::get` performs it.
+	pub fn get(&self, user_key: &[u8], snapshot_seq: u64) -> Result<Option<VerifEntry>> {
+		let ikey = InternalKey::new(user_key.to_vec(), snapshot_seq, InternalKeyKind::Set, 0);
+		Ok(self.t.get(&ikey)?.map(|(k, v)| VerifEntry {
+			kind: k.kind() as u8,
+			seq: k.seq_num(),
+			ts: k.timestamp,
+			user_key: k.user_key,
+			value: v,
+		}))
+	}
+
+	pub fn iter(&self, lo: Bound<&[u8]>, hi: Bound<&[u8]>) -> Result<Box<dyn LSMIterator + '_>> {
+		Ok(Box::new(self.t.iter(Some(to_range(lo, hi)))?))
+	}
+
+	pub fn is_before_range(&self, lo: Bound<&[u8]>, hi: Bound<&[u8]>) -> bool {
+		self.t.is_before_range(&to_range(lo, hi))
+	}
+
+	pub fn is_after_range(&self, lo: Bound<&[u8]>, hi: Bound<&[u8]>) -> bool {
+		self.t.is_after_range(&to_range(lo, hi))
+	}
+
+	pub fn overlaps_with_range(&self, lo: Bound<&[u8]>, hi: Bound<&[u8]>) -> bool {
+		self.t.overlaps_with_range(&to_range(lo, hi))
+	}
+
+	pub fn is_key_in_key_range(&self, user_key: &[u8]) -> bool {
+		self.t.is_key_in_key_range(&InternalKey::new(user_key.to_vec(), 0, InternalKeyKind::Set, 0))
+	}
+
+	pub fn info(&self) -> VerifTableInfo {
+		let t = &self.t;
+		VerifTableInfo {
+			id: t.id,
+			smallest: t.meta.smallest_point.as_ref().map(|k| k.user_key.clone()),
+			largest: t.meta.largest_point.as_ref().map(|k| k.user_key.clone()),
+			seq_lo: t.meta.properties.seqnos.0,
+			seq_hi: t.meta.properties.seqnos.1,
+			oldest_vlog: t.meta.properties.oldest_vlog_file_id,
+			num_entries: t.meta.properties.num_entries,
+			file_size: t.file_size,
+		}
+	}
+
+	pub fn num_data_blocks(&self) -> u64 {
+		self.t.meta.properties.num_data_blocks
+	}
+
+	pub fn index_partitions(&self) -> u64 {
+		self.t.meta.properties.index_partitions
+	}
+}
+
+/// The commit oracle, drivable on its own.
+pub struct VerifOracle {
+	inner: CommitOracle,
+}
+
+impl Default for VerifOracle {
+	fn default() -> Self {
+		Self::new()
+	}
+}
+
+impl VerifOracle {
+	pub fn new() -> Self {
+		Self {
+			inner: CommitOracle::new(),
+		}
+	}
+
+	pub fn check(&self, keys: &[Vec<u8>], start_seq: u64) -> Result<()> {
+		self.inner.check(keys.iter().map(|k| k.as_slice()), start_seq)
+	}
+
+	pub fn publish(&self, keys: &[Vec<u8>], seq_num: u64, count: u64, oldest_active: u64) {
+		self.inner.publish(keys.iter().map(|k| k.as_slice()), seq_num, count, oldest_active)
+	}
+
+	pub fn rollback(&self, keys: &[Vec<u8>], my_seq: u64) {
+		self.inner.rollback(keys.iter().map(|k| k.as_slice()), my_seq)
+	}
+
+	pub fn reset_for_restore(&self, max_seq: u64) {
+		self.inner.reset_for_restore(max_seq)
+	}
+
+	/// H7: make the next `publish` run the GC body (if its watermark gate allows).
+	pub fn force_gc_next(&self) {
+		self.inner.verif_force_gc_next()
+	}
+}
+
+impl Tree {
+	/// H7 on a live store.
+	pub fn verif_force_oracle_gc_next(&self) {
+		self.core.commit_pipeline.verif_oracle().verif_force_gc_next()
+	}
+}
